@@ -299,6 +299,10 @@ class ExplorerScriptSsbCompiler:
     ) -> dict[str, ExplorerScriptMacro]:
         """Updates path information of all of the macros. See the field descriptions for more details"""
         for macro in macros.values():
+            if basefile_path is not None and macro.included__absolute_path not in (None, subfile_path):
+                # The sub file got this macro from one of its own imports: it already carries the path of the file
+                # that defines it (relative to the same base file).
+                continue
             macro.included__absolute_path = subfile_path
             if basefile_path is not None:
                 macro.included__relative_path = os.path.relpath(subfile_path, os.path.dirname(basefile_path))
